@@ -185,6 +185,9 @@ class Representation(RepresentationBaseType):
                     clause='5.3.1.2',
                     msg='MPD@timeShiftBufferDepth is required for a live stream'):
                 return
+            if self.mpd.availabilityStartTime is None:
+                # (reported by the MPD element)
+                return
             num_segments = int(
                 (self.mpd.timeShiftBufferDepth.total_seconds() *
                  self.segmentTemplate.timescale) // seg_duration)
